@@ -94,15 +94,14 @@ def interiorKnots (a : Args) (lower upper : Rat) (xs : List (Option Rat))
   match a.df with
   | none => .ok given
   | some df =>
-    if df = 0 then .ok given   -- `if df:` is false for 0
+    -- `if df is not None:` (0 is a df like any other: refused unless degree = 0 without intercept)
+    let nknots : Int := df - (a.degree : Int) - (if a.intercept then 1 else 0)
+    if nknots < 0 then .error .valueError
     else
-      let nknots : Int := df - (a.degree : Int) - (if a.intercept then 1 else 0)
-      if nknots < 0 then .error .valueError
-      else
-        let s := knotsSample a.mode lower upper xs
-        if s.2 = 0 then .error .valueError
-        else if s.1.isEmpty then .error .noData
-        else .ok (quant s.1 nknots.toNat)
+      let s := knotsSample a.mode lower upper xs
+      if s.2 = 0 then .error .valueError
+      else if s.1.isEmpty then .error .noData
+      else .ok (quant s.1 nknots.toNat)
 
 /-- "Prepare and check arguments", "Prepare data" (the raise check), "Prepare knots" for a call
 with an empty `_state`. -/
